@@ -223,12 +223,14 @@ def loader_history(fam_name, base, icap, bcap, max_rows, ops, fail_write_at=-1, 
     lian_config.MAX_ROWS = max_rows
     ld = fam.make(base, icap, bcap)
     model = {}
+    removed = set()
     n_writes_before = 0
     for i, (k, _id, ln, x0, x1) in enumerate(ops):
         if k == 0:
             xs = [x0, x1][:ln]
             ld.save(_id, fam.content(xs))
             model[_id] = fam.want(xs)
+            removed.discard(_id)
         elif k == 1:
             got = fam.norm(_get(ld, _id))
             want = model.get(_id, [])
@@ -236,6 +238,16 @@ def loader_history(fam_name, base, icap, bcap, max_rows, ops, fail_write_at=-1, 
                 return f"step {i}: get({_id}) = {got} but the content most recently saved is {want}"
         elif k == 2:
             ld.export()
+        elif k == 4:
+            try:
+                ld.remove_unit_id(_id)
+            except SystemExit:
+                return f"step {i}: remove_unit_id({_id}) ended the process"
+            model.pop(_id, None)
+            removed.add(_id)
+            got = fam.norm(_get(ld, _id))
+            if got != []:
+                return f"step {i}: get({_id}) = {got} right after remove_unit_id({_id})"
         else:
             ld.export()
             ld.export_indexing()
@@ -249,6 +261,10 @@ def loader_history(fam_name, base, icap, bcap, max_rows, ops, fail_write_at=-1, 
         got = fam.norm(_get(ld, key))
         if got != model[key]:
             return f"end: get({key}) = {got} but the content most recently saved is {model[key]}"
+    for key in sorted(removed):
+        got = fam.norm(_get(ld, key))
+        if got != []:
+            return f"end: get({key}) = {got} although the item was removed and not saved again"
     # epilogue (the same for every history): what a later phase does with the workspace - restore, add one more item,
     # export again, restore again.  Everything saved so far must still come back.
     for phase in (1, 2):
@@ -277,11 +293,11 @@ def _ld_pre(args):
     lens = SLICE.get("lens", [1, 2])
     prefix = SLICE.get("prefix", [])
     for i, (k, _id, ln, x0, x1) in enumerate(_ops(args)):
-        if not (0 <= k <= 3):
+        if not (0 <= k <= (4 if SLICE.get("with_remove") else 3)):
             return False
         if i < len(prefix) and k != prefix[i]:
             return False
-        if k in (0, 1):
+        if k in (0, 1, 4):
             if not (1 <= _id <= ids):
                 return False
         elif _id != 1:
@@ -365,6 +381,8 @@ def describe_ops(ops):
             out.append(f"get({_id})")
         elif k == 2:
             out.append("export()")
+        elif k == 4:
+            out.append(f"remove_unit_id({_id})")
         else:
             out.append("export();export_indexing();restore-into-fresh-loader")
     return "; ".join(out)
